@@ -655,6 +655,21 @@ def gen_project(rng, profile="basic"):
             twins = [q for q in earlier if q not in t["deps"] and any(q[-1] == d[-1] for d in t["deps"])]
             if twins and rng.random() < 0.9:
                 t["deps"].insert(rng.randint(0, len(t["deps"])), list(rng.choice(twins)))
+    if rng.random() < cfg.get("p_all_disabled", 0.12):
+        # a suite WITH a setup phase whose own tests are all disabled (each of them, or the suite itself) — mostly a NESTED suite,
+        # mostly under --force-disabled (its tests then do run, and need that setup); without the option the suite has nothing to run
+        cands = [(sp, s) for sp, s, _ in iter_suites(project) if s["tests"]]
+        nested = [(sp, s) for sp, s in cands if len(sp) >= 2]
+        sp, s = rng.choice(nested if nested and rng.random() < 0.75 else cands)
+        if s["setup_suite"] is None and not s["injected"]:
+            s["setup_suite"] = {"params": [], "script": [{"a": "log", "level": "info"}]}
+        if rng.random() < 0.7:
+            for t in s["tests"]:
+                t["disabled"] = t["disabled"] or True
+        else:
+            s["disabled"] = True
+        if rng.random() < 0.65:
+            project["force_disabled"] = True
     check_valid(project)
     return project
 
@@ -704,6 +719,9 @@ def features(project):
             f.add("empty-suite" + ("+subs" if s["suites"] else ""))
         if s["disabled"]:
             f.add("disabled-suite")
+        if s["tests"] and (s["setup_suite"] is not None or s["injected"]) and (s["disabled"] or all(t["disabled"] for t in s["tests"])):
+            f.add("suite-with-setup-whose-own-tests-are-all-disabled" + ("-nested" if len(sp) >= 2 else "-top-level")
+                  + ("+force_disabled" if project["force_disabled"] else ""))
         for h in HOOKS:
             if s[h] is not None:
                 f.add("hook:" + h)
